@@ -484,6 +484,9 @@ func scanEq(j map[string]any, r respc.Reply) (bool, string) {
 // null). ok=false,"skip" means not comparable (tables with string keys).
 func luaEq(jv any, r respc.Reply) (bool, string) {
 	if f, ok := num(jv); ok {
+		if math.Abs(f) >= 9.2e18 || math.IsNaN(f) || math.IsInf(f, 0) {
+			return true, "skip" // outside the range of a RESP integer
+		}
 		if r.Kind == ':' && float64(r.Int) == math.Floor(f) {
 			return true, ""
 		}
